@@ -95,7 +95,22 @@ CPoint == [game |-> 15, method |-> "External", preset |-> PresetSeq[Digit(idx, 1
            threads |-> <<"2", "3", "16">>[Digit(idx, 6, 3) + 1],
            verdict |-> {"ok", "ThreadSpawnError"}, infinite |-> FALSE]
 
-TotalOf == IF Family = "range" THEN RTotal ELSE IF Family = "contention" THEN CTotal ELSE Total
+\* ------------------------------------------------------------------ the constructor family
+\* RegretParams::new documents its panics: "if any values are nan, or strat is negative".  Every tuple
+\* over {-1, 1, NaN, +inf, -inf} (strat also 0 and 2): it must panic exactly for those; for strat = +inf the
+\* documentation is silent and the code refuses, so both outcomes are admissible there.
+CVals == <<"neg", "one", "nan", "pinf", "ninf">>
+GVals == <<"neg", "zero", "two", "nan", "pinf", "ninf">>
+KTotal == 5 * 5 * 6 * 5
+KTuple == [a |-> CVals[Digit(idx, 1, 5) + 1], b |-> CVals[Digit(idx, 5, 5) + 1],
+           g |-> GVals[Digit(idx, 25, 6) + 1], w |-> CVals[Digit(idx, 150, 5) + 1]]
+KMustPanic(t) == t.a = "nan" \/ t.b = "nan" \/ t.w = "nan" \/ t.g \in {"nan", "neg", "ninf"}
+KPoint == [ctor |-> KTuple,
+           verdict |-> IF KMustPanic(KTuple) THEN {"panic"}
+                       ELSE IF KTuple.g = "pinf" THEN {"ok", "panic"} ELSE {"ok"}]
+
+TotalOf == IF Family = "range" THEN RTotal ELSE IF Family = "contention" THEN CTotal
+           ELSE IF Family = "ctor" THEN KTotal ELSE Total
 
 \* a deterministic slice: every Of-th point starting at Slice
 Init == /\ idx \in {Slice + k * Of : k \in 0..((TotalOf - 1 - Slice) \div Of)}
@@ -106,6 +121,7 @@ Next == /\ ~done
         /\ UNCHANGED idx
         /\ IF Family = "range" THEN PrintT(<<"OUT", idx, ToJson(RPoint)>>)
            ELSE IF Family = "contention" THEN PrintT(<<"OUT", idx, ToJson(CPoint)>>)
+           ELSE IF Family = "ctor" THEN PrintT(<<"OUT", idx, ToJson(KPoint)>>)
            ELSE PrintT(<<"OUT", idx, ToJson([game |-> Game, method |-> Method, preset |-> Preset, par |-> Par,
                                         budget |-> Budget, thr |-> Thr, threads |-> Th,
                                         verdict |-> Verdict(Th), infinite |-> Budget = 0])>>)
